@@ -97,7 +97,9 @@ def decode(
 
     try:
         claims: Claims = json.loads(payload, cls=decoder_cls)
-    except (TypeError, ValueError):
+    except (TypeError, ValueError, RecursionError):
+        raise InvalidPayloadError()
+    if not isinstance(claims, dict):
         raise InvalidPayloadError()
 
     return Token(header, claims)
